@@ -126,4 +126,3 @@ func TestVerifReplay(t *testing.T) {
 		t.Fatal(err)
 	}
 }
-
